@@ -280,6 +280,18 @@ pub fn fe_any() -> BoxedStrategy<Fe> {
         3 => any::<u64>().prop_map(|x| Fe(F::from(x))),
         2 => (0u64..16).prop_map(|x| Fe(F::from(x))),
         2 => (1u64..16).prop_map(|x| Fe(-F::from(x))),
+        // small multiples of 2^-m (m = 1..8): elements near r/2^m whose double,
+        // quadruple, ... wraps around the modulus to a small integer
+        2 => (1u64..64, 1u32..9).prop_map(|(s, m)| {
+            Fe(F::from(s) * f_pow2(m).invert().unwrap())
+        }),
+        // r/2 +- small, r/3-ish (inverse of 3 times small)
+        1 => (0u64..8).prop_map(|j| {
+            Fe(F::from(2u64).invert().unwrap() + F::from(j))
+        }),
+        1 => (1u64..8).prop_map(|j| {
+            Fe(F::from(3u64).invert().unwrap() * F::from(j))
+        }),
         8 => fe_random(),
     ]
     .boxed()
